@@ -127,16 +127,65 @@ def scenario(name, kind):
         q1 = an(entity(x, and_(x.a == 0, not_(flag))))
         q2 = an(entity(x, and_(flag == True, x.a >= 0)))
         return [q1, q2], ent
+    if name in ("S13_shared_attribute_root_condition_then_operand", "S14_shared_attribute_operand_then_root_condition"):
+        # ONE attribute expression object: the only condition of one query, an operand of a comparison in the other;
+        # the two scenarios differ in which query is BUILT first (building re-parents the shared node)
+        items, dom = make_domains(kind)
+        x = let(W.Item, dom(), name="x")
+        flag = x.flag
+        if name.startswith("S13"):
+            q1 = an(entity(x, flag))
+            q2 = an(entity(x, flag == False))
+        else:
+            q2 = an(entity(x, flag == False))
+            q1 = an(entity(x, flag))
+        return [q1, q2], ent
+    if name == "S15_shared_comparison_root_and_operand_of_or":
+        x = let(W.Item, dom(), name="x")
+        c = x.a == 0
+        return [an(entity(x, c)), an(entity(x, or_(c, x.b == 1)))], ent
     if name == "S10_three_queries_shared_variable":
         x = let(W.Item, dom(), name="x")
         return [an(entity(x, x.a == 0)), an(entity(x, x.b == 1)), an(entity(x, x.a == 1))], ent
     raise ValueError(name)
 
 
+def reference(name):
+    """what each query of the scenario returns when it is built and evaluated ALONE, computed in plain Python (the
+    engine-made reference `isolated` builds the whole scenario first, and building a second query over a shared
+    expression must not change the first one either); None where no independent reference is written down"""
+    I = [dict(name=n, a=a, b=b, flag=bool(b)) for n, a, b, _ in SPEC]
+    sel = lambda f: sorted(i["name"] for i in I if f(i))
+    pairs = lambda f: sorted((i["name"], j["name"]) for i in I for j in I if f(i, j))
+    if name == "S1_same_query_twice":
+        return [sel(lambda i: i["a"] == 0)] * 2
+    if name == "S2_shared_variable":
+        return [sel(lambda i: i["a"] == 0), sel(lambda i: i["b"] == 1)]
+    if name == "S3_shared_condition_one_negated":
+        return [sel(lambda i: i["a"] == 0 and i["b"] == 1), sel(lambda i: i["a"] != 0 and i["b"] == 1)]
+    if name == "S4_pair_and_single":
+        return [pairs(lambda i, j: i["a"] == j["a"] and i["b"] < j["b"]), sel(lambda i: i["b"] == 1)]
+    if name == "S6_two_pair_queries":
+        return [pairs(lambda i, j: i["a"] == j["a"] and i["b"] < j["b"]),
+                pairs(lambda i, j: i["a"] != j["a"] and i["b"] == 1 and j["b"] == 1)]
+    if name == "S10_three_queries_shared_variable":
+        return [sel(lambda i: i["a"] == 0), sel(lambda i: i["b"] == 1), sel(lambda i: i["a"] == 1)]
+    if name == "S11_variable_as_condition_then_compared":
+        return [sel(lambda i: i["b"] != 1), pairs(lambda i, j: i["a"] == j["a"] and i is not j)]
+    if name == "S12_shared_attribute_expression":
+        return [sel(lambda i: i["a"] == 0 and not i["flag"]), sel(lambda i: i["flag"] and i["a"] >= 0)]
+    if name in ("S13_shared_attribute_root_condition_then_operand", "S14_shared_attribute_operand_then_root_condition"):
+        return [sel(lambda i: i["flag"]), sel(lambda i: not i["flag"])]
+    if name == "S15_shared_comparison_root_and_operand_of_or":
+        return [sel(lambda i: i["a"] == 0), sel(lambda i: i["a"] == 0 or i["b"] == 1)]
+    return None
+
+
 SCENARIOS = ["S1_same_query_twice", "S2_shared_variable", "S3_shared_condition_one_negated", "S4_pair_and_single",
              "S5_query_and_its_use_as_subquery", "S6_two_pair_queries", "S7_domainless", "S8_rule_query_twice",
              "S9_rule_and_plain_sharing_variable", "S11_variable_as_condition_then_compared",
-             "S12_shared_attribute_expression"]
+             "S12_shared_attribute_expression", "S13_shared_attribute_root_condition_then_operand",
+             "S14_shared_attribute_operand_then_root_condition", "S15_shared_comparison_root_and_operand_of_or"]
 
 
 def isolated(name, kind, t):
@@ -214,6 +263,16 @@ def run_case(case):
     lengths = [len(p) for p in progs]
     states = set()
     first = None
+    ref = reference(name)
+    if ref is not None:
+        for t in range(len(progs)):
+            alone = sorted(iso(name, kind, t))
+            if alone != ref[t]:
+                first = Failure("alone-differs-from-reference",
+                                f"{name}/{kind}: query #{t}, evaluated alone after all queries of the scenario were built, returns "
+                                f"{alone}; built and evaluated alone it returns {ref[t]}", case=(name, kind, progs, ()))
+                res.features = {"bad:alone-differs-from-reference"}
+                break
     for sched in S.interleavings(lengths):
         npre = S.preemptions(sched, lengths)
         if len(progs) >= 3 and npre > BOUNDS["thorough"]["preemption_bound_3_iterators"]:
